@@ -1,4 +1,229 @@
-(* C16 -- stub while the pipeline is brought up; replaced by the real statements *)
-From PM Require Import Base.Bytes Base.Outcome Gen.GenConsts Gen.GenLibPm Model.LibPm.
-Example C16_smoke : recv [CP_PROMPT] = Ok (PM_ESERVERPARSE, [], []).
+(* C16 -- Client library and CLI interpret replies faithfully and safely.
+   Model: Model/LibPm.v (libpowerman.c reply scanner; powerman.c reply loop + xread.c), following the code with the
+   repairs F12a..F12d (all four are applied in /repo).  Specification vocabulary: Spec/ReplySpec.v.
+   Generated facts used: Gen/GenLibPm.v (retcode_table, server_codes, cli_suppress, cli_stderr, XREAD_CHUNKSIZE, enum
+   values) and Gen/GenConsts.v (CP_* strings, CP_LINEMAX, class intervals). *)
+From Coq Require Import List NArith ZArith Bool Lia.
+From PM Require Import Base.Bytes Base.Outcome Gen.GenConsts Gen.GenLibPm Model.LibPm Spec.ReplySpec
+  Proofs.LibPmBase Proofs.LibPmRecv Proofs.LibPmReply Proofs.LibPmCli Proofs.LibPmCliConf Proofs.LibPmMain.
+Import ListNotations.
+Local Open Scope Z_scope.
+
+(* ---------------------------------------------------------------------------------------------------------------
+   C16_total.  For ANY list of chunks (what successive read()s return; [] or the end of the list is end of file)
+   _server_recv_response returns, without any access outside its buffer: either PM_ESERVEREOF, or the bytes consumed
+   end with the prompt, nothing but them was taken from the stream, and the result is computed from them alone. *)
+Theorem C16_total : forall chunks : list text,
+  exists err resp rest, recv chunks = Ok (err, resp, rest) /\
+    ((err = PM_ESERVEREOF /\ resp = []) \/
+     (exists consumed, ends_with consumed CP_PROMPT /\ consumed ++ concat rest = concat chunks /\
+        err = retcode (parse_response consumed) /\ resp = (if err =? PM_ESUCCESS then parse_response consumed else []))).
+Proof. exact main_total. Qed.
+Print Assumptions C16_total.
+
+(* fewer bytes than the prompt in the first read (F12a's witness), and a read that spans the end of the reply *)
+Example C16_total_ex :
+  recv [bs "001 v"%string ++ CP_EOL; CP_PROMPT] = Ok (PM_ESUCCESS, [bs "001 v"%string ++ CP_EOL], []) /\
+  recv [[48%N]] = Ok (PM_ESERVEREOF, [], []) /\
+  recv [bs "102 ok"%string ++ CP_EOL ++ CP_PROMPT; bs "x"%string] = Ok (PM_ESUCCESS, [bs "102 ok"%string ++ CP_EOL], [bs "x"%string]).
+Proof. vm_compute. auto. Qed.
+
+(* ... and no sequence of API calls (connect, status, on, off, cycle, node iterator, raw receive, disconnect) reaches
+   a memory error (receive buffer, node[CP_LINEMAX]); every call returns. *)
+Theorem C16_total_session : forall (ops : list op) (chunks : list text),
+  snd (run_session ops chunks) = None /\ length (fst (run_session ops chunks)) = length ops.
+Proof. exact main_total_session. Qed.
+Print Assumptions C16_total_session.
+
+Example C16_total_session_ex :
+  let chunks := [bs "001 v"%string ++ CP_EOL; CP_PROMPT; bs "105 x"%string ++ CP_EOL ++ CP_PROMPT;
+                 bs "307 a"%string ++ CP_EOL ++ bs "307 b"%string ++ CP_EOL ++ bs "103 ok"%string ++ CP_EOL ++ CP_PROMPT] in
+  map r_pay (fst (run_session [OpConnect; OpNodes] chunks)) = [PNone; PNodes [bs "a"%string; bs "b"%string]].
 Proof. vm_compute. reflexivity. Qed.
+
+(* ---------------------------------------------------------------------------------------------------------------
+   C16_segmentation.  If "powerman> " occurs in the stream only as its very end, the result depends only on the
+   concatenation of the chunks. *)
+Theorem C16_segmentation : forall c1 c2 : list text,
+  nonempty_chunks c1 -> nonempty_chunks c2 -> concat c1 = concat c2 ->
+  prompt_only_at_end (concat c1) -> recv c1 = recv c2.
+Proof. exact main_segmentation. Qed.
+Print Assumptions C16_segmentation.
+
+Definition ex_stream : text := bs "303 t0: on"%string ++ CP_EOL ++ bs "103 Query complete"%string ++ CP_EOL ++ CP_PROMPT.
+Example C16_segmentation_ex :
+  prompt_only_at_end ex_stream /\ nonempty_chunks [firstn 3 ex_stream; skipn 3 ex_stream] /\
+  recv [firstn 3 ex_stream; skipn 3 ex_stream] = Ok (PM_ESUCCESS, [bs "103 Query complete"%string ++ CP_EOL; bs "303 t0: on"%string ++ CP_EOL], []).
+Proof.
+  split; [apply prompt_only_at_end_b_sound; vm_compute; reflexivity|].
+  split; [repeat constructor; discriminate|vm_compute; reflexivity].
+Qed.
+
+(* the hypothesis is needed: a read that ends with a "powerman> " inside a line ends the exchange early
+   (protocol weakness: device text relayed in 305 lines may contain it) *)
+Theorem C16_segmentation_hypothesis_needed :
+  exists c1 c2 : list text, nonempty_chunks c1 /\ nonempty_chunks c2 /\ concat c1 = concat c2 /\ recv c1 <> recv c2.
+Proof.
+  exists [bs "305 "%string ++ CP_PROMPT ++ CP_EOL ++ bs "102 ok"%string ++ CP_EOL ++ CP_PROMPT],
+         [bs "305 "%string ++ CP_PROMPT; CP_EOL ++ bs "102 ok"%string ++ CP_EOL ++ CP_PROMPT].
+  split; [repeat constructor; discriminate|]. split; [repeat constructor; discriminate|]. split; [reflexivity|].
+  vm_compute. discriminate.
+Qed.
+
+(* ---------------------------------------------------------------------------------------------------------------
+   C16_success_sound.  PM_ESUCCESS is returned only if the bytes consumed contain a CRLF-terminated line whose
+   leading integer (as sscanf "%d" reads it) is a success code (001 or 1xx).  Uses the regenerated retcode_table. *)
+Theorem C16_success_sound : forall chunks resp rest,
+  recv chunks = Ok (PM_ESUCCESS, resp, rest) ->
+  exists consumed raw a b line c,
+    consumed ++ concat rest = concat chunks /\ consumed = a ++ raw ++ b /\ ends_with raw CP_EOL /\
+    line = cstr raw /\ In line resp /\ sscanf_d line = Some c /\ success_code c.
+Proof. exact main_success_sound. Qed.
+Print Assumptions C16_success_sound.
+
+Example C16_success_sound_ex : exists resp rest, recv [ex_stream] = Ok (PM_ESUCCESS, resp, rest).
+Proof. eexists _, _. vm_compute. reflexivity. Qed.
+
+(* ---------------------------------------------------------------------------------------------------------------
+   C16_error_exact.  A conforming reply (3xx lines, then one terminal line) whose terminal code k is one powermand
+   can send (server_codes, regenerated from client_proto.h), however segmented: the return code is PM_ESUCCESS for a
+   success code and k itself otherwise.  Re-proved against the regenerated table of _server_retcode. *)
+Theorem C16_error_exact : forall (r : reply) (chunks : list text),
+  conforming r -> In (rl_code (rp_term r)) server_codes ->
+  segmentation_of chunks (reply_stream r) -> prompt_only_at_end (reply_stream r) ->
+  exists resp, recv chunks = Ok (spec_rc (rl_code (rp_term r)), resp, []).
+Proof. exact main_error_exact. Qed.
+Print Assumptions C16_error_exact.
+
+(* a terminal code outside the library's table: PM_ESERVERPARSE, never success *)
+Theorem C16_error_unknown_code : forall (r : reply) (chunks : list text),
+  conforming r -> classify (rl_code (rp_term r)) = None ->
+  segmentation_of chunks (reply_stream r) -> prompt_only_at_end (reply_stream r) ->
+  recv chunks = Ok (PM_ESERVERPARSE, [], []).
+Proof. exact main_error_unknown. Qed.
+Print Assumptions C16_error_unknown_code.
+
+Definition ex_reply (k : Z) : reply :=
+  {| rp_info := [ {| rl_code := 303; rl_text := bs "t0: on"%string |}; {| rl_code := 303; rl_text := bs "t1: off"%string |};
+                  {| rl_code := 307; rl_text := bs "t0"%string |}; {| rl_code := 307; rl_text := bs "t1"%string |} ];
+     rp_term := {| rl_code := k; rl_text := bs "text"%string |} |}.
+
+Lemma ex_reply_conforming k : terminal_code k -> 0 <= k <= 999 -> conforming (ex_reply k).
+Proof.
+  intros T K. unfold conforming, ex_reply. cbn [rp_info rp_term rl_code rl_text]. split; [|split; [|exact T]].
+  - repeat constructor; cbn [rl_code rl_text]; try lia; try discriminate.
+  - split; [exact K|]. repeat constructor; discriminate.
+Qed.
+
+Example C16_error_exact_ex :
+  conforming (ex_reply 210) /\ In 210 server_codes /\ prompt_only_at_end (reply_stream (ex_reply 210)) /\
+  segmentation_of [firstn 7 (reply_stream (ex_reply 210)); skipn 7 (reply_stream (ex_reply 210))] (reply_stream (ex_reply 210)) /\
+  spec_rc 210 = PM_ECOMMAND /\
+  conforming (ex_reply 256) /\ classify 256 = None.
+Proof.
+  split; [apply ex_reply_conforming; [right; cbv; split; discriminate|lia]|].
+  split; [cbv; tauto|].
+  split; [apply prompt_only_at_end_b_sound; vm_compute; reflexivity|].
+  split; [split; [repeat constructor; discriminate|vm_compute; reflexivity]|].
+  split; [reflexivity|].
+  split; [apply ex_reply_conforming; [right; cbv; split; discriminate|lia]|reflexivity].
+Qed.
+
+(* ---------------------------------------------------------------------------------------------------------------
+   C16_status.  pm_node_status answers OFF iff the reply has the exact line "303 <node>: off", ON iff it has
+   "303 <node>: on" and not the off line, UNKNOWN otherwise -- for any list of received lines, and, through recv, for
+   a conforming reply however segmented. *)
+Theorem C16_status_lines : forall (node : text) (resp : list text), zlen node + 11 < CP_LINEMAX ->
+  let offl := status_line node (bs "off"%string) ++ CP_EOL in
+  let onl := status_line node (bs "on"%string) ++ CP_EOL in
+  (node_status node resp = PM_OFF <-> In offl resp) /\
+  (node_status node resp = PM_ON <-> ~ In offl resp /\ In onl resp) /\
+  (node_status node resp = PM_UNKNOWN <-> ~ In offl resp /\ ~ In onl resp).
+Proof. exact main_status_general. Qed.
+Print Assumptions C16_status_lines.
+
+Theorem C16_status : forall (r : reply) (chunks : list text) (node : text),
+  conforming r -> success_code (rl_code (rp_term r)) -> In (rl_code (rp_term r)) server_codes ->
+  segmentation_of chunks (reply_stream r) -> prompt_only_at_end (reply_stream r) -> zlen node + 11 < CP_LINEMAX ->
+  exists resp, recv chunks = Ok (PM_ESUCCESS, resp, []) /\
+    node_status node resp = spec_status PM_OFF PM_ON PM_UNKNOWN node (reply_lines r).
+Proof. exact main_status. Qed.
+Print Assumptions C16_status.
+
+Example C16_status_ex :
+  spec_status PM_OFF PM_ON PM_UNKNOWN (bs "t0"%string) (reply_lines (ex_reply 103)) = PM_ON /\
+  spec_status PM_OFF PM_ON PM_UNKNOWN (bs "t1"%string) (reply_lines (ex_reply 103)) = PM_OFF /\
+  spec_status PM_OFF PM_ON PM_UNKNOWN (bs "t"%string) (reply_lines (ex_reply 103)) = PM_UNKNOWN /\
+  success_code 103 /\ In 103 server_codes.
+Proof. vm_compute. intuition discriminate. Qed.
+
+(* ---------------------------------------------------------------------------------------------------------------
+   C16_nodes.  The node iterator yields exactly the names of the "307 name" lines, in the order of the reply; node[]
+   is never overrun (C16_total_session); for ANY reply every name comes from a line sscanf("307 %s") accepts. *)
+Theorem C16_nodes : forall (r : reply) (chunks : list text),
+  conforming r -> success_code (rl_code (rp_term r)) -> In (rl_code (rp_term r)) server_codes -> names_ok r ->
+  segmentation_of chunks (reply_stream r) -> prompt_only_at_end (reply_stream r) ->
+  exists resp, recv chunks = Ok (PM_ESUCCESS, resp, []) /\ node_iter resp = Ok (spec_nodes (rp_info r ++ [rp_term r])).
+Proof. exact main_nodes. Qed.
+Print Assumptions C16_nodes.
+
+Theorem C16_nodes_sound : forall (resp l : list text), node_iter resp = Ok l ->
+  forall n, In n l -> exists line, In line resp /\ sscanf_s CP_INFO_XNODES line = Some n.
+Proof. exact main_nodes_sound. Qed.
+Print Assumptions C16_nodes_sound.
+
+Example C16_nodes_ex :
+  spec_nodes (rp_info (ex_reply 103) ++ [rp_term (ex_reply 103)]) = [bs "t0"%string; bs "t1"%string] /\ names_ok (ex_reply 103).
+Proof.
+  split; [reflexivity|]. unfold names_ok, ex_reply. cbn [rp_info rp_term app].
+  repeat constructor; cbn [rl_code rl_text]; try (vm_compute; reflexivity); try (intros; discriminate); try lia.
+Qed.
+
+(* ---------------------------------------------------------------------------------------------------------------
+   C16_cli_exit.  For ANY server stream the CLI terminates with an exit status without touching memory outside its
+   objects; the status is 0 exactly when no err_exit happened and every terminal code read (one per request) is a
+   success code.  On a conforming session it prints exactly the text of every non-suppressed line (309 lines on
+   stderr) and exits 0 iff the terminal code of the main request is a success code. *)
+Theorem C16_cli_total : forall (npre : nat) (stream : text), exists r, cli npre stream = Ok r.
+Proof. exact main_cli_total. Qed.
+Print Assumptions C16_cli_total.
+
+Theorem C16_cli_exit_any : forall (npre : nat) (stream : text) (r : cli_result), cli npre stream = Ok r ->
+  (c_status r = 0 <-> c_fatal r = None /\ c_terms r <> [] /\ Forall (fun k => cp_success k = true) (c_terms r)).
+Proof. exact main_cli_exit. Qed.
+Print Assumptions C16_cli_exit_any.
+
+Theorem C16_cli_exit : forall (version : text) (pre : list reply) (main : reply),
+  wf_name version -> Forall cmd_reply pre -> Forall (fun r => cp_success (term_code r) = true) pre -> cmd_reply main ->
+  exists r, cli (length pre) (session_stream version (pre ++ [main])) = Ok r /\
+    c_fatal r = None /\
+    c_stdout r = spec_output cli_suppress cli_stderr false (pre ++ [main]) /\
+    diag_of (c_stderr r) = spec_output cli_suppress cli_stderr true (pre ++ [main]) /\
+    c_terms r = map term_code (pre ++ [main]) /\
+    (c_status r = 0 <-> success_code (term_code main)).
+Proof. exact main_cli_conforming. Qed.
+Print Assumptions C16_cli_exit.
+
+(* the tables of powerman.c the statement is relative to, as regenerated from the source *)
+Example C16_cli_tables : cli_suppress = [103; 104; 105] /\ cli_stderr = [309].
+Proof. split; reflexivity. Qed.
+
+(* terminal code 256 (F12c's witness): failure class, exit status 1 *)
+Example C16_cli_exit_ex :
+  let main := {| rp_info := [ {| rl_code := 303; rl_text := bs "t0: on"%string |}; {| rl_code := 309; rl_text := bs "diag"%string |} ];
+                 rp_term := {| rl_code := 256; rl_text := bs "failure class"%string |} |} in
+  cmd_reply main /\
+  exists r, cli 0 (session_stream (bs "v1"%string) [main]) = Ok r /\ c_status r = 1 /\
+            c_stdout r = bs "t0: on"%string ++ [LF] ++ bs "failure class"%string ++ [LF].
+Proof.
+  cbv zeta. split.
+  - unfold cmd_reply, line_ok, wf_line, clean, clean_byte. cbn [rp_info rp_term rl_code rl_text].
+    repeat (split || constructor); try lia; try discriminate; reflexivity.
+  - eexists. vm_compute. auto.
+Qed.
+
+(* a truncated session (F12d's witness: the server closes inside the prompt): err_exit, status 1, no hang *)
+Example C16_cli_eof_ex :
+  exists r, cli 0 (bs "001 v"%string ++ CP_EOL ++ CP_PROMPT ++ bs "102 ok"%string ++ CP_EOL ++ bs "power"%string) = Ok r /\
+            c_status r = 1 /\ c_fatal r = Some fatal_eof_expect.
+Proof. eexists. vm_compute. auto. Qed.
